@@ -45,6 +45,8 @@ def write_alphabet(proj):
         ("s20_ary{2}", shared), ("str_ary{3}", shared), ("padded_ary{2}", (pv, pv, pv)), ("plain2.2", True), ("plain3.13", False),
         ("plain", 5), ("plain2.3", True), ("arrs1.ba[32]{32}", [bool(i % 3) for i in range(32)]), ("padded1", pv), ("str1", "hello"),
         ("big_int{2100}", [(i * 7) % 30000 for i in range(2100)]), ("inner1.name", "abc"), ("padded_ary[1].d1", 7), ("bools1.b3", True),
+        # bits are taken by truthiness: a masked flag (4, 0x80) sets the bit, it is not shifted into the word
+        ("plain2.6", 4), ("plain3.1", 0x80),
     ]
     invalid = [
         ("nope", 1), ("padded1.nope", 1), ("plain3{x}", 1), ("padded_ary[9]", pv), ("padded_ary{4}", [pv] * 4), ("padded1.3", True),
@@ -213,6 +215,7 @@ def shards(tier, seed):
     sh += [("wide", pers, 4000, op, 0) for pers in ("v20", "v32") for op in ("read", "write")]
     sh += [("packed", pers, conn, "both", 0) for pers in ("v20", "v32") for conn in CONNS]
     sh += [("lists", "v20", 500, "read", 1, "debuglog"), ("lists", "v32", 4000, "write", 2, "debuglog"), ("refusals", "m800", 500, "write", 0, "debuglog")]
+    sh += [("lists", "v20", 500, "write", 0, "python-O"), ("lists", "v32", 4000, "read", 3, "python-O")]
     return sh
 
 
